@@ -234,6 +234,11 @@ C03Emit(z) ==
     UNION {{PR(e, "rtu", RespADU("rtu", 0, r), "normal") : e \in RespEntries("rtu", r.fc)} : r \in C03EmitResps(0)}
     \cup UNION {{PQ(e, "rtu", ReqADU("rtu", 0, r), "legal") : e \in ReqEntries("rtu", r.fc)} : r \in {x \in ReqSamples(0) : LegalReq(x) /\ x.unit = 1 /\ ~(x.fc \in {1, 2} /\ x.qty > 125)}}   \* (not the requests of known finding C09-F1)
     \cup UNION {{PR(e, "rtu", ExcADU("rtu", 0, u, f, code), "exception") : e \in DispEntries("rtu")} : u \in {1, 255}, f \in {1, 3, 16, 23, 100}, code \in {1, 2, 11, 255}}
+    \* write requests whose count field disagrees with their byte count (the parsers may or may not accept them; what an
+    \* accepting parser emits again must still carry a consistent CRC)
+    \cup UNION {{PQ(e, "rtu", RTUADU(1, <<16, 0, 16, 0, cnt, bc>> \o Pat("ramp", bc)), "any") : e \in ReqEntries("rtu", 16)} : cnt \in {1, 2, 3, 100}, bc \in {2, 4, 6}}
+    \cup UNION {{PQ(e, "rtu", RTUADU(1, <<15, 0, 16, 0, cnt, bc>> \o Pat("ramp", bc)), "any") : e \in ReqEntries("rtu", 15)} : cnt \in {1, 9, 17, 1000}, bc \in {1, 2, 3}}
+    \cup UNION {{PQ(e, "rtu", RTUADU(1, <<23, 0, 1, 0, 2, 0, 16, 0, cnt, bc>> \o Pat("ramp", bc)), "any") : e \in ReqEntries("rtu", 23)} : cnt \in {1, 2, 3, 100}, bc \in {2, 4, 6}}
 C03Cases(z) == C03Msgs(0) \cup C03Trailers(0) \cup C03Emit(0)
 C03Self(k) == k.op = "crc" => CRC(k.msg) = CRCSlow(k.msg)
 
